@@ -40,6 +40,7 @@ structure Impl where
   xmlApost : Float → Int → Float
   xmlRatio : Float → Float → Int → Float
   err : Float → Float → Float → Float × Float
+  hw : Float → Float → Float
 
 def genImpl : Impl where
   dof := StatsGen.degreesOfFreedom
@@ -59,6 +60,7 @@ def genImpl : Impl where
   xmlApost := StatsGen.xmlAposteriori
   xmlRatio := StatsGen.xmlRatio
   err := StatsGen.errObsAdj
+  hw := StatsGen.confHalfWidth
 
 def refImpl : Impl where
   dof := Stats.degreesOfFreedom
@@ -78,6 +80,7 @@ def refImpl : Impl where
   xmlApost := Stats.xmlAposteriori
   xmlRatio := Stats.xmlRatio
   err := Stats.errObsAdj
+  hw := Stats.confHalfWidth
 
 def eval (I : Impl) (toks : List String) : String :=
     match toks with
@@ -132,6 +135,10 @@ def eval (I : Impl) (toks : List String) : String :=
         let (em, ev) := I.err v qvv w
         okF [em, ev]
       | _, _, _ => "bad-op"
+    | ["hw", sd, kki] =>
+      match float? sd, float? kki with
+      | some sd, some kki => okF [I.hw sd kki]
+      | _, _ => "bad-op"
     | ["accept", p] =>
       match float? p with
       | some p => s!"flag {if I.accept p then 1 else 0}"
